@@ -26,14 +26,20 @@ def run_sweep(chk, orch, oracle, make_wl, n_quick=10, n_round=32, crash_share=0.
             # a workload may pin parts of its cell (e.g. the memory mode its structure is aimed at)
             cell.update(opts.pop("force_cell", None) or {})
             forced = opts.pop("force_fault", None)
+            no_fault = opts.pop("no_fault", False)      # a workload aimed at in-process state: never killed (the draw below still happens)
+            pre = opts.pop("pre", None)
             a = common.job_args(spec, opts, cell, oracles=[oracle])
+            if pre:
+                # history of the output folder: an earlier run (other data; complete, --keep_tmp or killed) worked there
+                a["pre"] = pre
+                chk.faults["output_folder_with_the_leftovers_of_an_earlier_run"] += 1
             fn = "scenarios:pipeline"
             if forced:
                 # a workload may also pin its fault (a kill at a stage-relative point its structure is aimed at)
                 fn = "scenarios:crash_resume"
                 a["fault"] = dict(forced)
                 a["resume"] = dict(a["fault"].pop("resume", None) or {})
-            elif chk.rng.random() < crash_share:
+            elif chk.rng.random() < crash_share and not no_fault:
                 fn = "scenarios:crash_resume"
                 if chk.rng.random() < 0.5:
                     a["fault"] = {"kind": "kill", "index": 12 + chk.rng.randrange(260), "phase": chk.rng.choice(["before", "after"])}
@@ -73,6 +79,9 @@ def run_sweep(chk, orch, oracle, make_wl, n_quick=10, n_round=32, crash_share=0.
                 chk.harness_error(r.get("err"))
                 continue
             res = r["res"]
+            import os as _os, sys as _sys
+            if _os.environ.get("VERIF_DEBUG_SWEEP"):
+                _sys.stderr.write("SWEEP k=%s exit=%s rg=%s nexp=%s thr=%s site=%s\n" % (k, res.get("exit"), opts.get("read_group"), spec.get("n_exp"), cell.get("threads"), res.get("failure_site")))
             chk.count_run(res)
             crashed = fn.endswith("crash_resume") and not res.get("no_crash")
             if crashed:
